@@ -441,7 +441,7 @@ def _try_candidates(res, h, inputs, hyps_base, neg, obname, key, timeout_ms, pro
                 fnames = [f for f, _ in failed]
                 entry = {'obligation': obname, 'replayed_failures': fnames, 'inputs': vals,
                          'exception': exc, 'case': res['name']}
-                kf = KNOWN.match(prop, keys | {key}, fnames + [obname], res['name'])
+                kf = KNOWN.match(prop, keys | {key}, fnames + [obname, str(exc)], res['name'])
                 if kf is not None:
                     entry['known'] = kf
                     res['known'].append(entry)
@@ -607,10 +607,13 @@ class Known:
         for e in self.entries:
             if e.get('status', 'open') != 'open' or e['property'] != prop:
                 continue
+            cp = e.get('case_prefix')
+            if cp and not any(case.startswith(x) for x in (cp if isinstance(cp, list) else [cp])):
+                continue
             if e.get('key') in keys:
-                cp = e.get('case_prefix')
-                if cp and not case.startswith(cp):
-                    continue
+                return e
+            oc = e.get('obligation_contains')
+            if oc and any(oc in str(o) for o in obnames):
                 return e
         return None
 
